@@ -122,6 +122,14 @@ CHECKS.update({
          "DESIGN.md §4 C16"),
 })
 
+CHECKS.update({
+ "C10": ("exploration",
+         "deterministic simulation: coin-origin pairs (governance-registered coin, liquid-vesting denoms) and ERC20-origin pairs over the repository's honest, delayed-malicious and direct-balance-manipulation token artefacts; seeded MsgConvertCoin / MsgConvertERC20 / ERC20 transfer to the module address (hook) / bank MsgSend wrapper / plain transfers / holder burns / governance toggles / restarts; backing inequality after every tx and block + per-conversion delta identity",
+         "After every transaction and block: for every coin-origin pair ERC20 totalSupply <= coins escrowed by the module (and equal once holder burns observed by the model are added); for every ERC20-origin pair coin supply <= tokens held by the module, also against the lying token contracts. Per conversion the two sides move by exactly the requested amount or nothing moves.",
+         "IBC receive/ack/timeout conversion callbacks are NOT exercised at this commit (no loopback channel yet); the chameleon token of the design is replaced by the repository's three compiled artefacts; self-destructed tokens not generated.",
+         "DESIGN.md §4 C10"),
+})
+
 NOT_YET = {}  # id -> reason (filled below)
 NA = {
  "C18": "pure function of one input (wrap -> encode -> decode -> unwrap of one Ethereum tx): no schedule, clock, fault, crash or second party can change its result, so deterministic simulation with fault injection has nothing to decide; see DESIGN.md §4 C18",
